@@ -48,6 +48,15 @@ def _c_function(text):
     return "unknown"
 
 
+def _slug(msg):
+    words = []
+    for w in re.sub(r"[^a-z ]", "", msg.lower()).split():
+        if w in ("cannot", "for", "is", "which", "in", "to") or len(words) == 4:
+            break
+        words.append(w)
+    return "-".join(words) or "report"
+
+
 def _classify(stderr, returncode, timed_out):
     """-> (key, excerpt) or None"""
     if timed_out:
@@ -61,7 +70,7 @@ def _classify(stderr, returncode, timed_out):
     if m:
         at = stderr.index(m.group(0))
         rep = stderr[at:at + 4000]
-        kind = "-".join(re.sub(r"[^a-z ]", "", m.group(4).lower()).split()[:4])
+        kind = _slug(m.group(4))
         fn = _c_function(rep)
         return "ubsan:%s:%s" % (kind, fn if fn != "unknown" else os.path.basename(m.group(1))), rep[:1800]
     m = re.search(r"==\d+== (Invalid (?:read|write|free)[^\n]*|Conditional jump or move depends on uninitialised[^\n]*|"
@@ -72,7 +81,7 @@ def _classify(stderr, returncode, timed_out):
         for block in re.split(r"\n==\d+== \n", stderr[stderr.index(m.group(0)) - 10:]):
             if any(f in block for f in _C_FILES):
                 k = re.search(r"==\d+== ([A-Z][^\n]*)", block)
-                kind = "-".join(re.sub(r"[^a-z ]", "", (k.group(1) if k else m.group(1)).lower()).split()[:4])
+                kind = _slug(k.group(1) if k else m.group(1))
                 return "valgrind:%s:%s" % (kind, _c_function(block)), block[:1800]
     if returncode is not None and returncode < 0:
         return "crash:signal%d" % (-returncode), stderr[-1500:]
@@ -177,6 +186,11 @@ def _stress_models(fn, tname):
            {(lab(40),): 1} if matrix else {(lab(5),): 1},
            {(lab(i), lab(j)): ((i * 7 + j * 3) % 5 - 2) or 1 for i in range(8) for j in range(i + 1, 8)},  # dense
            {(lab(i), lab(i + 1)): (-1) ** i * (1 + i % 3) for i in range(30)}]                        # chain
+    # every number of variables 2..10: a ring with alternating couplings plus one field
+    for n in range(2, 11):
+        ring = {(lab(i), lab((i + 1) % n)): (1.5 if i % 2 else -1) for i in range(n if n > 2 else 1)}
+        ring[(lab(0),)] = 0.5
+        out.append(ring)
     if not q2:
         out += [{tuple(lab(i) for i in range(9)): 1},
                 {tuple(lab(i) for i in range(7)): -2, tuple(lab(i) for i in range(3, 10)): 1, (lab(11),): 0.5},
@@ -298,7 +312,7 @@ def _gen_sequences(ctx):
     for fn in FNS:
         spin = SPIN_FN[fn]
         for tname in TYPES[fn]:
-            for terms in _special_models(fn, tname)[2:12:3] + _stress_models(fn, tname)[2:7:2]:
+            for terms in _special_models(fn, tname)[2:12:3] + _stress_models(fn, tname)[2::3]:
                 if tname in MATRIX and not variables_of(terms):
                     continue
                 vs = _vars_for(tname, terms)
@@ -332,8 +346,12 @@ def _capture_raw(specs):
 
     def rec(name, f):
         def g(*args):
+            # record only: the C code is never executed in this process (a corrupted heap would kill the checker);
+            # a placeholder of the right shape lets the front end finish
             raw.append((name, _plain(args)))
-            return f(*args)
+            n = len(args[0]) if name == "quso" else args[0]
+            num = args[5]
+            return [[1] * n for _ in range(num)], [0.0] * num
         return g
     mod.c_anneal_quso, mod.c_anneal_puso = rec("quso", real[0]), rec("puso", real[1])
     try:
@@ -366,7 +384,7 @@ def _gen_valgrind(ctx):
     for fn in FNS:
         spin = SPIN_FN[fn]
         for tname in TYPES[fn][:1] + [t for t in TYPES[fn] if t in MATRIX][:1]:
-            for terms in _special_models(fn, tname)[:12:2] + _stress_models(fn, tname)[:4]:
+            for terms in _special_models(fn, tname)[:12:2] + _stress_models(fn, tname)[:4] + _stress_models(fn, tname)[7:16:2]:
                 if tname in MATRIX and not variables_of(terms):
                     continue
                 vs = _vars_for(tname, terms)
